@@ -48,6 +48,10 @@ Theorem C13_soc_Hs_is_WW : stmt_soc_Hs_is_WW.
 Proof. exact soc_Hs_is_WW_ok. Qed.
 Theorem C13_soc_sparse_expansion : stmt_soc_sparse_expansion.
 Proof. exact soc_sparse_expansion_ok. Qed.
+(** set_identity_scaling: W = W⁻¹ = WᵀW = identity and the sparse KKT block eliminates to the
+    identity, whatever the previous scaling (no stale u, v, d) *)
+Theorem C13_soc_identity_scaling : stmt_soc_identity_scaling.
+Proof. exact soc_identity_scaling_ok. Qed.
 (** second-order cone, update_scaling level *)
 Theorem C13_soc_nt_identities_partial : stmt_soc_nt_identities_partial.
 Proof. exact soc_nt_identities_partial_ok. Qed.
